@@ -224,6 +224,45 @@ def check_iteration(ck):
             ck.prove(f"iteration.scalars.{label}", [], g, replay=lambda res, label=label: replay_scalars(res, label),
                      margin_goal=core.implies(z3.And(S["ls_average_return"][0] == 1, S["ls_average_return"][1] == 3, S["ls_average_length"][0] == 2, S["ls_average_length"][1] == 6,
                                                      S["ls_step"][0] == 4, S["ls_step"][1] == 8, S["log_loss"][()] == 7), g))
+    # several backends: every backend gets its own ordered record.  The host callbacks are Python closures outside the traced program; which backend
+    # object each debug_callback equation finally reaches is read from the closure graph of the callback stored in the IR (no execution)
+    b0, b1 = Rec(), Rec()
+    cb2 = LoggingCallback([b0, b1], name="verif2", alpha=0.5)
+
+    def fn2(step_state, log, it_count):
+        ctx = IterationContext(EmptyCallbackState(), step_state, env, pol, it_count, None, log, algo, {})
+        cb2.on_iteration(ctx, key=jr.key(0))
+        return jnp.zeros(())
+    trm = trace(fn2, example_log_state((E,)), {"loss": jnp.zeros(())}, jnp.array(0), argnames=["ls", "log", "count"], label="LoggingCallback.on_iteration (two backends)")
+
+    def reach(obj, depth=0, seen=None):
+        seen = set() if seen is None else seen
+        out = set()
+        if id(obj) in seen or depth > 10:
+            return out
+        seen.add(id(obj))
+        if isinstance(obj, AbstractLoggingBackend):
+            return {id(obj)}
+        for attr in ("func", "__wrapped__", "__self__", "callback_func", "callback"):
+            if hasattr(obj, attr):
+                try:
+                    out |= reach(getattr(obj, attr), depth + 1, seen)
+                except Exception:  # noqa: BLE001
+                    pass
+        for a in getattr(obj, "args", ()) or ():
+            out |= reach(a, depth + 1, seen)
+        for c in getattr(obj, "__closure__", None) or ():
+            try:
+                out |= reach(c.cell_contents, depth + 1, seen)
+            except ValueError:
+                pass
+        return out
+    eqs = _debug_eqns(trm.jaxpr)
+    targets = [reach(e.params.get("callback")) for e in eqs]
+    nm = {id(b0): "backend0", id(b1): "backend1"}
+    ok2 = len(eqs) == 2 and all(_is_ordered(e) for e in eqs) and all(len(t) == 1 for t in targets) and set().union(*targets) == {id(b0), id(b1)} if targets else False
+    ck.fact("iteration.each_backend_gets_its_own_ordered_record@backends=2", bool(ok2),
+            f"{len(eqs)} host callbacks; they reach {[[nm.get(i, '?') for i in t] for t in targets]} (each backend must be reached by exactly one ordered callback)")
     # cumulative number of environment steps: one real PPO iteration with E=2, S=2 advances every environment's counter by S
     st = jax.eval_shape(lambda k: algo.reset(env, pol, key=k, callback=cb), jr.key(0))
     from jaxsmt import stubs
